@@ -11,6 +11,7 @@ type reopenVar struct {
 type Alpha struct {
 	Writes       bool
 	RemoveAbsent bool
+	NoRemove     bool
 	SetNil       bool
 	Save         bool
 	Rollback     bool
@@ -46,6 +47,9 @@ func (a Alpha) Ops(w *World, s *Spec) []Op {
 			}
 		}
 		for _, k := range s.Keys {
+			if a.NoRemove {
+				break
+			}
 			if _, ok := m.WorkC[string(k)]; ok || a.RemoveAbsent {
 				ops = append(ops, Op{Kind: OpRemove, Key: k})
 			}
